@@ -66,6 +66,7 @@ def run_case(repo, case):
         jr, sess = mods['jsonrpc'], mods['session']
         proto = getattr(jr, PROTO_CLASS[case['proto']])
         errs = set(case.get('errs', ()))
+        nerrs = set(case.get('nerrs', ()))
 
         class Server(sess.RPCSession):
             processing_timeout = case['pt']
@@ -83,6 +84,10 @@ def run_case(repo, case):
                 m = request.args[0]
                 if isinstance(request, jr.Notification):
                     state['notifs'].append(m)
+                    if case['dur'][m]:
+                        await asyncio.sleep(case['dur'][m])
+                    if m in nerrs:
+                        raise jr.RPCError(77, 'notification failed') if m % 2 == 0 else ValueError('boom')
                     return None
                 d = case['dur'][m]
                 if d > 0:
@@ -341,12 +346,15 @@ def _req(style, m, idv):
 
 
 def member_variants(style, m):
-    """(payload, duration) choices for member `m`: a request with each handler duration, a
-    notification, an invalid member"""
+    """(payload, duration, handler fails) choices for member `m`: a request with each handler
+    duration; a notification whose handler returns / fails / is still running when the
+    processing timeout fires; an invalid member"""
     off = 0.1 * m
-    out = [(_req(style, m, m + 1), 0 if d == 0 else d + off) for d in DURS]
-    out.append((_req(style, m, None), None))
-    out.append((dict(_req(style, m, 30 + m), method=1), None))
+    out = [(_req(style, m, m + 1), 0 if d == 0 else d + off, False) for d in DURS]
+    out.append((_req(style, m, None), None, False))
+    out.append((_req(style, m, None), 2 + off, True))
+    out.append((_req(style, m, None), 12 + off, False))
+    out.append((dict(_req(style, m, 30 + m), method=1), None, False))
     return out
 
 
@@ -363,12 +371,13 @@ def grid(tier_full, protos=('v2', 'loose')):
     cases = []
     for proto in ('v1',) + tuple(protos):
         style = 'v2' if proto == 'v2' else 'loose'
-        for payload, d in member_variants(style, 0):
-            if proto == 'v1' and 'id' not in payload:
-                continue
+        for payload, d, fails in member_variants(style, 0):
+            if proto == 'v1':
+                if 'id' not in payload:
+                    payload = dict(payload, id=None)      # the 1.0 form of a notification
             for a, b, via in windows(True):
                 cases.append({'proto': proto, 'max': 0, 'pt': PT, 'single': payload, 'dur': [d],
-                              'pause': a, 'resume': b, 'via': via})
+                              'nerrs': [0] if fails else [], 'pause': a, 'resume': b, 'via': via})
     for proto in protos:
         style = 'v2' if proto == 'v2' else 'loose'
         for n in (1, 2, 3):
@@ -376,14 +385,15 @@ def grid(tier_full, protos=('v2', 'loose')):
             for combo in itertools.product(*opts):
                 members = [c[0] for c in combo]
                 durs = [c[1] for c in combo]
-                nreq = sum(1 for d in durs if d is not None)
+                nerrs = [m for m, c in enumerate(combo) if c[2]]
+                nreq = sum(1 for c in combo if 'id' in c[0] and c[0]['method'] == 'm')
                 if n == 3 and not tier_full and (nreq < 2 or proto != 'v2'):
                     continue
                 for a, b, via in windows(tier_full and n < 3):
                     if n == 3 and a is not None and not (a < PT < b) and not tier_full:
                         continue
                     cases.append({'proto': proto, 'max': 0, 'pt': PT, 'members': members,
-                                  'dur': durs, 'pause': a, 'resume': b, 'via': via})
+                                  'dur': durs, 'nerrs': nerrs, 'pause': a, 'resume': b, 'via': via})
     # duplicate ids and a size limit (no handler times out: the length of the library's
     # SERVER_BUSY response is not something the harness knows)
     for a, b, via in windows(False):
@@ -404,7 +414,7 @@ def random_cases(rng, n):
         style = proto
         pt = rng.choice([3.0, 10.0])
         k = rng.randint(1, 5)
-        members, durs = [], []
+        members, durs, nerrs = [], [], []
         same_id = rng.random() < 0.3
         for m in range(k):
             r = rng.random()
@@ -414,7 +424,9 @@ def random_cases(rng, n):
                 durs.append(0 if d == 0 else d + 0.01 * (m + 1))
             elif r < 0.85:
                 members.append(_req(style, m, None))
-                durs.append(None)
+                durs.append(rng.choice([None, 1.0 + 0.01 * (m + 1), pt + 1 + 0.01 * (m + 1)]))
+                if rng.random() < 0.4:
+                    nerrs.append(m)
             else:
                 members.append(dict(_req(style, m, 30 + m), method=1))
                 durs.append(None)
@@ -422,8 +434,8 @@ def random_cases(rng, n):
         if rng.random() < 0.85:
             a = rng.randint(0, int(pt * 12)) / 10 + 0.005
             b = a + rng.randint(1, int(pt * 10)) / 10
-        c = {'proto': proto, 'max': 0, 'pt': pt, 'dur': durs, 'pause': a, 'resume': b,
-             'via': rng.choice(['write', 'env'])}
+        c = {'proto': proto, 'max': 0, 'pt': pt, 'dur': durs, 'nerrs': nerrs, 'pause': a,
+             'resume': b, 'via': rng.choice(['write', 'env'])}
         if k == 1 and rng.random() < 0.5:
             c['single'] = members[0]
         else:
